@@ -20,7 +20,9 @@ import (
 
 // Op is one step of a forced schedule.
 //
-//	join a      start a join of address a (Client.Join the first time, Channel.Join later); parks before publishing its context
+//	join a      start a join of address a (Client.Join the first time, Channel.Join on that Channel later; with
+//	            h > 0: Channel.Join on Channel h-1); parks before publishing its context
+//	cjoin a     Client.Join for address a, also when a Channel for a exists already: makes another Channel
 //	push k      let call k publish its join context (it then parks before its final select, or blocks on a full buffer)
 //	leave a     start Channel.Leave on address a; parks before its final select
 //	wait k      let call k enter its final select
@@ -34,6 +36,7 @@ type Op struct {
 	A  int    `json:"a,omitempty"`
 	K  int    `json:"k,omitempty"`
 	V  int    `json:"v,omitempty"`
+	H  int    `json:"h,omitempty"` // join/leave/query: Channel number + 1 (0: the first Channel made for address a)
 	P  int    `json:"p,omitempty"` // presence payload shape (payloads)
 	C  string `json:"c,omitempty"` // children of a message (msg op), see childXML
 }
@@ -50,6 +53,7 @@ type Label struct {
 	A int      `json:"a,omitempty"`
 	O string   `json:"o,omitempty"` // outcome of a return / kind of a call / stanza kind
 	B bool     `json:"b,omitempty"`
+	H int      `json:"h,omitempty"` // Channel number (new, call, query)
 	V int      `json:"v,omitempty"` // message variant (type attribute etc.)
 	C []string `json:"c,omitempty"` // children of a delivered message: "i<n>" invite n, "u" muc#user x without invite, "f" x of another namespace, "o" other
 }
@@ -89,7 +93,8 @@ const (
 type callRec struct {
 	k       int
 	join    bool
-	a       int
+	a       int // occupant address of its Channel
+	h       int // its Channel
 	ph      phase
 	done    bool // context cancelled (or returned)
 	replied bool // its sender consumed an error reply
@@ -102,12 +107,12 @@ type callRec struct {
 	errCond string // condition of the error reply sent for it
 }
 
+// chanRec is the driver's book-keeping for one muc.Channel object.
 type chanRec struct {
-	obj   *muc.Channel
-	made  bool
-	jq    []int
-	dep   bool
-	entry bool
+	a   int // its occupant address
+	obj *muc.Channel
+	jq  []int
+	dep bool
 }
 
 type world struct {
@@ -123,10 +128,11 @@ type world struct {
 	cbOther []string
 
 	calls    []*callRec
-	chans    [nAddr]chanRec
-	srv      string // "idle" | "offer" | "await"
+	chs      []*chanRec // Channels in order of creation
+	table    [nAddr]int // the Channel registered for an address (-1: none): last registration wins
+	srv      string     // "idle" | "offer" | "await"
 	srvK     int
-	srvA     int
+	srvH     int // the Channel whose join buffer the presence handler works on
 	sent     int // stanzas written to the session
 	nreq     int // presences seen on the wire
 	invSeq   int
@@ -139,6 +145,9 @@ type world struct {
 
 func newWorld() (*world, error) {
 	w := &world{srv: "idle"}
+	for a := range w.table {
+		w.table[a] = -1
+	}
 	w.pipe = hx.NewPipe()
 	local, remote := jid.MustParse(me), jid.MustParse("example.net")
 	s, err := hx.NewReadySession(w.pipe.Sess, stanza.NSClient, 0, local, remote)
@@ -242,40 +251,91 @@ func classify(err error) string {
 	return "other"
 }
 
-func (w *world) inflight(a int) bool {
+func (w *world) inflight(h int) bool {
 	for _, c := range w.calls {
-		if c.a == a && c.ph != phRet {
+		if c.h == h && c.ph != phRet {
 			return true
 		}
 	}
 	return false
 }
 
-func (w *world) startJoin(a int) bool {
-	if w.srv == "offer" || w.inflight(a) || a >= 3 {
-		return false
+// firstChan is the first Channel made for address a (-1 if none).
+func (w *world) firstChan(a int) int {
+	for i, ch := range w.chs {
+		if ch.a == a {
+			return i
+		}
 	}
-	ch := &w.chans[a]
-	if ch.made && ch.obj == nil {
-		return false
+	return -1
+}
+
+// resolve names the Channel an op is about: Channel h-1 if h > 0, else the first Channel of address a.
+func (w *world) resolve(a, h int) int {
+	if h > 0 {
+		if h-1 < len(w.chs) {
+			return h - 1
+		}
+		return -1
+	}
+	if a < 0 || a >= nAddr {
+		return -1
+	}
+	return w.firstChan(a)
+}
+
+func (w *world) objOf(h int) *muc.Channel {
+	w.mu.Lock()
+	defer w.mu.Unlock()
+	return w.chs[h].obj
+}
+
+// startJoin starts Client.Join for address a (fresh: a new Channel) or Channel.Join on a Channel.
+func (w *world) startJoin(a, hsel int, forceNew bool) bool {
+	if w.srv == "offer" {
+		return false // the registration needs the lock the presence handler holds
+	}
+	h := -1
+	if !forceNew {
+		h = w.resolve(a, hsel)
+		if hsel > 0 && h < 0 {
+			return false
+		}
+	}
+	fresh := h < 0
+	var obj *muc.Channel
+	if fresh {
+		if a < 0 || a >= 3 {
+			return false
+		}
+	} else {
+		a = w.chs[h].a
+		obj = w.objOf(h)
+		if obj == nil || w.inflight(h) {
+			return false
+		}
 	}
 	ctx, cancel := context.WithCancel(context.Background())
 	c := &callRec{k: len(w.calls), join: true, a: a, ph: phStart, cancel: cancel, ret: make(chan error, 1)}
 	c.act = newActor("muc.join.push.before", "muc.join.wait.before")
+	if fresh {
+		h = len(w.chs)
+		w.chs = append(w.chs, &chanRec{a: a})
+		w.lab(Label{T: "new", H: h, A: a})
+	}
+	c.h = h
+	rec := w.chs[h]
 	w.calls = append(w.calls, c)
-	first := !ch.made
-	ch.made = true
-	obj := ch.obj
 	go func() {
 		c.act.enter()
 		defer c.act.leave()
 		var err error
 		if p := hx.Catch(func() {
-			if first {
+			if fresh {
 				var o *muc.Channel
 				o, err = w.client.Join(ctx, jid.MustParse(addrs[a]), w.sess)
 				w.mu.Lock()
-				w.chans[a].obj = o
+				rec.obj = o
 				w.mu.Unlock()
 			} else {
 				err = obj.Join(ctx)
@@ -285,8 +345,8 @@ func (w *world) startJoin(a int) bool {
 		}
 		c.ret <- err
 	}()
-	w.lab(Label{T: "call", K: c.k, A: a, O: "join"})
-	ch.entry = true
+	w.lab(Label{T: "call", K: c.k, H: h, A: a, O: "join"})
+	w.table[a] = h
 	if !w.waitFor(func() bool { return c.act.parkedAt() == "muc.join.push.before" }) {
 		w.anom(fmt.Sprintf("call %d did not reach the publish point", c.k))
 	}
@@ -331,7 +391,7 @@ func (w *world) push(k int) bool {
 		return false
 	}
 	c := w.calls[k]
-	ch := &w.chans[c.a]
+	ch := w.chs[c.h]
 	c.act.release()
 	if c.done {
 		// select between a ready send (if the buffer has room) and a done context
@@ -371,16 +431,21 @@ func (w *world) push(k int) bool {
 	return true
 }
 
-func (w *world) startLeave(a int) bool {
-	ch := &w.chans[a]
-	if ch.obj == nil || w.inflight(a) {
+func (w *world) startLeave(a, hsel int) bool {
+	h := w.resolve(a, hsel)
+	if h < 0 {
+		return false
+	}
+	ch := w.chs[h]
+	a = ch.a
+	obj := w.objOf(h)
+	if obj == nil || w.inflight(h) {
 		return false
 	}
 	ctx, cancel := context.WithCancel(context.Background())
-	c := &callRec{k: len(w.calls), join: false, a: a, ph: phParked, cancel: cancel, ret: make(chan error, 1)}
+	c := &callRec{k: len(w.calls), join: false, a: a, h: h, ph: phParked, cancel: cancel, ret: make(chan error, 1)}
 	c.act = newActor("muc.leave.wait.before")
 	w.calls = append(w.calls, c)
-	obj := ch.obj
 	go func() {
 		c.act.enter()
 		defer c.act.leave()
@@ -390,7 +455,7 @@ func (w *world) startLeave(a int) bool {
 		}
 		c.ret <- err
 	}()
-	w.lab(Label{T: "call", K: c.k, A: a, O: "leave"})
+	w.lab(Label{T: "call", K: c.k, H: h, A: a, O: "leave"})
 	ch.dep = false
 	if !w.waitFor(func() bool { return c.act.parkedAt() == "muc.leave.wait.before" }) {
 		w.anom(fmt.Sprintf("leave call %d did not reach its wait point", c.k))
@@ -410,13 +475,13 @@ func (w *world) noteReturn(c *callRec, err error) {
 		if c.join {
 			// the hand-over came from the presence handler
 		} else {
-			w.chans[c.a].dep = false
+			w.chs[c.h].dep = false
 		}
 	case "stanza":
 		w.lab(Label{T: "ret", K: c.k, O: "stanzaerr"})
 	case "ctx":
 		w.lab(Label{T: "ret", K: c.k, O: "ctxerr"})
-		ch := &w.chans[c.a]
+		ch := w.chs[c.h]
 		for i := 1; i < len(ch.jq); i++ { // a blocked publisher withdraws
 			if ch.jq[i] == c.k {
 				ch.jq = append(ch.jq[:i:i], ch.jq[i+1:]...)
@@ -466,7 +531,7 @@ func (w *world) ready(c *callRec) bool {
 	if w.srv == "offer" && w.srvK == c.k || w.srv == "await" && w.srvK == c.k {
 		return true
 	}
-	return !c.join && w.chans[c.a].dep
+	return !c.join && w.chs[c.h].dep
 }
 
 func (w *world) wait(k int) bool {
@@ -698,22 +763,21 @@ func (w *world) deliverAvail(a, v, p int) bool {
 	if !w.sendRaw(presenceShapeXML(a, "", v, w.lastReq(a), p)) {
 		return true
 	}
-	ch := &w.chans[a]
-	if !ch.entry || len(ch.jq) == 0 {
+	h := w.table[a]
+	if h < 0 || len(w.chs[h].jq) == 0 {
 		w.finishIter()
 		w.collect()
 		return true
 	}
-	w.srvA = a
+	w.srvH = h
 	w.handlerTakes()
 	w.collect()
 	return true
 }
 
-// handlerTakes: the presence handler for address srvA is about to take the head of the join buffer.
+// handlerTakes: the presence handler, having found Channel srvH in the table, is about to take the head of its join buffer.
 func (w *world) handlerTakes() {
-	a := w.srvA
-	ch := &w.chans[a]
+	ch := w.chs[w.srvH]
 	for {
 		if len(ch.jq) == 0 {
 			// falls through to the user presence callback
@@ -782,11 +846,11 @@ func (w *world) deliverUnavail(a, v, p int) bool {
 		return true
 	}
 	w.finishIter()
-	ch := &w.chans[a]
-	if ch.entry {
-		ch.entry, ch.dep = false, true
+	if h := w.table[a]; h >= 0 {
+		w.table[a] = -1
+		w.chs[h].dep = true
 		for _, c := range w.calls {
-			if !c.join && c.a == a && c.ph == phSelect {
+			if !c.join && c.h == h && c.ph == phSelect {
 				w.expectReturn(c)
 			}
 		}
@@ -946,11 +1010,13 @@ func (w *world) deliverOther(v int) bool {
 	return true
 }
 
-func (w *world) query(a int) bool {
-	w.mu.Lock()
-	obj := w.chans[a].obj
-	w.mu.Unlock()
-	if obj == nil || w.srv == "offer" {
+func (w *world) query(a, hsel int) bool {
+	h := w.resolve(a, hsel)
+	if h < 0 || w.srv == "offer" {
+		return false
+	}
+	obj := w.objOf(h)
+	if obj == nil {
 		return false
 	}
 	var b bool
@@ -958,7 +1024,7 @@ func (w *world) query(a int) bool {
 		w.anom("Joined() blocked")
 		return true
 	}
-	w.lab(Label{T: "query", A: a, B: b})
+	w.lab(Label{T: "query", H: h, A: w.chs[h].a, B: b})
 	return true
 }
 
@@ -966,11 +1032,13 @@ func (w *world) query(a int) bool {
 func (w *world) apply(o Op) bool {
 	switch o.Op {
 	case "join":
-		return w.startJoin(o.A)
+		return w.startJoin(o.A, o.H, false)
+	case "cjoin":
+		return w.startJoin(o.A, 0, true)
 	case "push":
 		return w.push(o.K)
 	case "leave":
-		return w.startLeave(o.A)
+		return w.startLeave(o.A, o.H)
 	case "wait":
 		return w.wait(o.K)
 	case "cancel":
@@ -990,7 +1058,7 @@ func (w *world) apply(o Op) bool {
 	case "other":
 		return w.deliverOther(o.V)
 	case "query":
-		return w.query(o.A)
+		return w.query(o.A, o.H)
 	}
 	return false
 }
@@ -1032,7 +1100,7 @@ func (w *world) finish() {
 			w.expectReturn(c)
 		}
 	}
-	for a := 0; a < nAddr; a++ {
-		w.query(a)
+	for h := range w.chs {
+		w.query(0, h+1)
 	}
 }
